@@ -106,6 +106,73 @@ var st = &state{
 	passed:     map[string]int{},
 }
 
+// inflight is the case being evaluated right now; the watchdog (when enabled)
+// turns a case that does not return within the limit into a violation - for
+// the properties that state termination. The limit is several orders of
+// magnitude above the normal cost of a case.
+var inflight struct {
+	mu    sync.Mutex
+	check string
+	raw   []byte
+	since time.Time
+	on    bool
+}
+
+func begin(check string, raw []byte) {
+	inflight.mu.Lock()
+	inflight.check, inflight.raw, inflight.since, inflight.on = check, raw, time.Now(), true
+	inflight.mu.Unlock()
+}
+
+func end() {
+	inflight.mu.Lock()
+	inflight.on = false
+	inflight.mu.Unlock()
+}
+
+// Inflight marks the start of one enumerated input (bulk enumerations call it
+// themselves; Run does it for serialised cases).
+func Inflight(check string, c interface{}) {
+	if !watchdogOn {
+		return
+	}
+	raw, _ := json.Marshal(c)
+	begin(check, raw)
+}
+
+// InflightDone marks the end of the current enumerated input.
+func InflightDone() {
+	if watchdogOn {
+		end()
+	}
+}
+
+var watchdogOn bool
+
+// Watchdog enables the per-case non-termination check; call it before Main.
+func Watchdog(limit time.Duration) {
+	watchdogOn = true
+	go func() {
+		for {
+			time.Sleep(time.Second)
+			inflight.mu.Lock()
+			on, since, check, raw := inflight.on, inflight.since, inflight.check, inflight.raw
+			inflight.mu.Unlock()
+			if !on || time.Since(since) < limit {
+				continue
+			}
+			st.mu.Lock()
+			st.violations++
+			st.lastFail = &failure{Check: check, Property: st.id, Sig: "no-return",
+				Violation: fmt.Sprintf("the case did not return within %s (normal cost: milliseconds)", limit), Case: raw}
+			st.mu.Unlock()
+			fmt.Printf("property %s violated (%s): case did not return within %s\ncase: %s\n", st.id, check, limit, raw)
+			flush(1)
+			os.Exit(1)
+		}
+	}()
+}
+
 // knownSigs holds "<ID> <sig>" pairs listed as `known:` in known_findings.txt.
 var knownSigs = map[string]string{}
 
@@ -247,7 +314,13 @@ func Run(t tbLike, checkName string, c interface{}, check func() Outcome) {
 	if err != nil {
 		t.Fatalf("harness: case not serialisable: %v", err)
 	}
+	if watchdogOn {
+		begin(checkName, raw)
+	}
 	out := Protect(check)
+	if watchdogOn {
+		end()
+	}
 	record(checkName, raw, out)
 	if out.Violation == "" {
 		return
@@ -445,7 +518,13 @@ func Replay(t *testing.T, fns map[string]ReplayFn) {
 	if !ok {
 		t.Fatalf("harness: no check named %q in this package", f.Check)
 	}
+	if watchdogOn {
+		begin(f.Check, f.Case)
+	}
 	out := Protect(func() Outcome { return fn(f.Case) })
+	if watchdogOn {
+		end()
+	}
 	record(f.Check, f.Case, out)
 	if out.Violation != "" {
 		st.mu.Lock()
